@@ -70,10 +70,11 @@ REDIS_THEOREMS = {
 }
 
 
-RABBIT_MODULE = "RepidProofs.Props.Rabbit"
+RABBIT_MODULE = "RepidProofs.Props.RabbitConservation"   # imports Props/Rabbit.lean
 RABBIT_THEOREMS = {
-    "C01": ["rabbit_ack_removes", "rabbit_nack_dead_letters", "rabbit_reject_origin", "rabbit_requeue_window_witness",
-            "rabbit_nack_nonnormal_witness"],
+    "C01": ["settle_conserves", "pump_conserves", "expireHeads_conserves", "publish_places", "reject_conserves", "ack_places",
+            "places_deadLetter", "rabbit_ack_removes", "rabbit_nack_dead_letters", "rabbit_reject_origin",
+            "rabbit_requeue_window_witness", "rabbit_nack_nonnormal_witness"],
     "C03": ["rabbit_requeue_window_witness"],
     "C05": ["expiry_not_early", "expiry_not_late", "head_blocks", "expire_step_due", "rabbit_head_of_line_witness"],
     "C12": ["onMessage_spec", "rabbit_no_expired_handover", "rabbit_dead_letters_retrievable"],
